@@ -203,3 +203,9 @@ Definition concat_spec (override : option N) (ms : list (list N)) : option (list
 (* the invariant as a proposition *)
 Definition Inv (s : BroCatli) : Prop := invb s = true.
 Definition Started (s : BroCatli) : Prop := startedb s = true.
+
+(* the last two bytes (a, b) of a stream end in the final empty meta-block: the last byte is not
+   zero and the highest set bit (ISLASTEMPTY) has the bit below it (ISLAST) set as well *)
+Definition end_marker_ok (a b : N) : bool :=
+  let v := a + 256 * b in
+  negb (b =? 0) && (1 <=? N.log2 v) && N.testbit v (N.log2 v - 1).
